@@ -458,6 +458,7 @@ func (r *run) doStep(s Step) {
 		r.doStep(Step{Op: "open"})
 		return
 	}
+	wasRel := s.Rel
 	s = r.resolve(s)
 	si := stepInfo{markBefore: r.mark(), inv: r.rec.Len()}
 	opDesc, _ := json.Marshal(s)
@@ -512,7 +513,8 @@ func (r *run) doStep(s Step) {
 					mayrej = true // larger than the documented maximum: the WAL may (must, if it cannot read it back) refuse it
 				}
 			}
-			ev = map[string]any{"ev": "store", "idxs": idxs, "cids": s.Cids, "res": errClass(err), "nbytes": nb, "mayrej": mayrej}
+			// rel: the driver chose the index from the WAL's own LastIndex (an append the WAL cannot legitimately refuse)
+			ev = map[string]any{"ev": "store", "idxs": idxs, "cids": s.Cids, "res": errClass(err), "nbytes": nb, "mayrej": mayrej, "rel": wasRel}
 			if err != nil {
 				ev["msg"] = err.Error()
 			}
